@@ -414,6 +414,18 @@ impl C03 {
         add("baud", "stream", "", vec![lit(b"\x1b["), Part::B, lit(b";"), Part::B, lit(b"*r")]);
         add("osc-palette", "stream", "", vec![lit(b"\x1b]4;"), Part::B, lit(b";rgb:00/00/00\x1b\\")]);
         add("music-lengths", "stream", "", vec![lit(b"\x1b[|T"), Part::B, lit(b"L"), Part::B, lit(b"C"), Part::B, lit(b"P"), Part::B, lit(b"\x0e")]);
+        // --- the same counted function twenty times in a row: a clamp that is computed from state the function itself grows
+        // (scrollback length, allocated rows, tab stops) lets the work double with every repetition
+        for (inter, fin) in [("", 'b'), ("", '@'), ("", 'P'), ("", 'L'), ("", 'M'), ("", 'S'), ("", 'T'), ("", 'X'), ("", 'I'), ("", 'Z'), ("", 'Y'), ("", 'a'), ("", 'e'), ("", 'B'), ("", 'C'), ("", 'E'), (" ", '@'), (" ", 'A'), ("", 'J'), ("", 'K')] {
+            let mut parts = vec![lit(b"A")];
+            for _ in 0..20 {
+                parts.push(lit(b"\x1b["));
+                parts.push(Part::B);
+                parts.push(lit(format!("{inter}{fin}").as_bytes()));
+            }
+            parts.push(lit(b"z\r\n"));
+            add(&format!("x20 CSI {inter}{fin}"), "stream", "", parts);
+        }
         // --- macros
         add("macro-define-id", "stream", "", vec![lit(b"\x1bP"), Part::B, lit(b";0;0!zabc\x1b\\\x1b["), Part::B, lit(b"*z")]);
         add("macro-self-recursive", "stream", "", vec![lit(b"\x1bP1;0;0!zx\x1b[1*z\x1b\\\x1b[1*z")]);
@@ -759,7 +771,7 @@ impl Prop for C03 {
         "C03"
     }
     fn rule(&self) -> &'static str {
-        "a case is a template with numeric slots, executed with every slot at max(W,H)+1, 2^16, 10^6 and 2^31-1 on the real engine with the work counter (hook H1), the counting allocator and the nesting guard (H2) armed. Oracles: ticks <= 16(n+1)WH*max(W,H) for streams (64*65536*(n+1) for fonts/files, 4096(n+1) for sixel), peak live allocation <= 64MiB+4096n (512MiB for picture files: a file buffer may hold 65535 rows), nesting <= 16, cpu <= 2s, and saturation: ticks/peak at a larger magnitude <= 2x those at the smaller one. Templates: the complete CSI table (63 finals x 8 intermediates x parameter vectors of length 0..=6 over {0,1,size,BIG}) x 3 sizes x 3 prepared screens (quick: lengths <=3 complete + sample), the same table with top/bottom margins set and with top/bottom + left/right margins + origin mode set (parameter vectors of length <=2 quick / <=4 thorough), the same table (parameter vectors of length <=2 quick / <=3 thorough) as the content of an .ans file loaded with Buffer::from_bytes (a file buffer does not clamp the cursor to a screen), margins/rectangles/tab/colour functions, DCS macro definitions (text, hex repeat groups, self/mutual recursion with fan-out 1..=16, doubling chains), sixel raster/repeat headers and colour registers (selection, RGB and HLS definition; through the terminal and directly), Avatar repeat, CTerm:Font / PSF1 / PSF2 header fields, Tundra position records (big-endian row / column), every decimal number written in a text seed file of the loader corpus (palette files: counts and components; ans / pcb / an1 / asc: CSI parameters and colour codes; up to 150 per seed). distinct_nontrivial = distinct (family, screen, size, log2 tick profile over the magnitudes) fingerprints"
+        "a case is a template with numeric slots, executed with every slot at max(W,H)+1, 2^16, 10^6 and 2^31-1 on the real engine with the work counter (hook H1), the counting allocator and the nesting guard (H2) armed. Oracles: ticks <= 16(n+1)WH*max(W,H) for streams (64*65536*(n+1) for fonts/files, 4096(n+1) for sixel), peak live allocation <= 64MiB+4096n (512MiB for picture files: a file buffer may hold 65535 rows), nesting <= 16, cpu <= 2s, and saturation: ticks/peak at a larger magnitude <= 2x those at the smaller one. Templates: the complete CSI table (63 finals x 8 intermediates x parameter vectors of length 0..=6 over {0,1,size,BIG}) x 3 sizes x 3 prepared screens (quick: lengths <=3 complete + sample), the same table with top/bottom margins set and with top/bottom + left/right margins + origin mode set (parameter vectors of length <=2 quick / <=4 thorough), the same table (parameter vectors of length <=2 quick / <=3 thorough) as the content of an .ans file loaded with Buffer::from_bytes (a file buffer does not clamp the cursor to a screen), margins/rectangles/tab/colour functions, twenty counted functions repeated twenty times each, DCS macro definitions (text, hex repeat groups, self/mutual recursion with fan-out 1..=16, doubling chains), sixel raster/repeat headers and colour registers (selection, RGB and HLS definition; through the terminal and directly), Avatar repeat, CTerm:Font / PSF1 / PSF2 header fields, Tundra position records (big-endian row / column), every decimal number written in a text seed file of the loader corpus (palette files: counts and components; ans / pcb / an1 / asc: CSI parameters and colour codes; up to 150 per seed). distinct_nontrivial = distinct (family, screen, size, log2 tick profile over the magnitudes) fingerprints"
     }
     fn meta(&self, _ctx: &Ctx) -> Value {
         json!({"floor_evaluations": 5000, "floor_distinct": 300, "watchdog_s": 60, "watchdog_is_violation": true, "plain_pass": "quick",
